@@ -4,7 +4,7 @@ import queue
 import threading
 from collections import deque
 from pathlib import Path
-from urllib.parse import quote, unquote
+from urllib.parse import quote, unquote_to_bytes
 
 from fortls.constants import log
 
@@ -17,7 +17,8 @@ def path_from_uri(uri: str) -> str:
         _, path = uri.split("file:///", 1)
     else:
         _, path = uri.split("file://", 1)
-    return str(Path(unquote(path)).resolve())
+    # A path is a sequence of bytes, not necessarily valid UTF-8
+    return str(Path(os.fsdecode(unquote_to_bytes(path))).resolve())
 
 
 def path_to_uri(path: str) -> str:
@@ -25,7 +26,8 @@ def path_to_uri(path: str) -> str:
     if os.name == "nt":
         return "file:///" + quote(path.replace("\\", "/"))
     else:
-        return "file://" + quote(path)
+        # A path is a sequence of bytes, not necessarily valid UTF-8
+        return "file://" + quote(os.fsencode(path))
 
 
 class JSONRPC2ProtocolError(Exception):
